@@ -218,6 +218,32 @@ def run_custom(ctx, histories, wire_schema):
                                            "application, %d write the schema block only because of a directive node" % (n_wf, n_desc, n_kept, n_block))
 
 
+def numeral_reprs(real):
+    """[[v, repr(float(v))]] for every Int / Float literal of the real printed text (the `rho` of `SdlText.astToDoc`:
+    what the AST -> wire conversion computes for `Lit.int v f` / `Lit.float v f`)"""
+    from py_gql.lang import parse, ast as _ast
+    out, seen, todo = [], set(), []
+    try:
+        todo = [parse(real, allow_type_system=True)]
+    except Exception:  # noqa
+        return out
+    while todo:
+        n = todo.pop()
+        if isinstance(n, (list, tuple)):
+            todo.extend(n)
+        elif isinstance(n, _ast.Node):
+            if isinstance(n, (_ast.IntValue, _ast.FloatValue)) and n.value not in seen:
+                seen.add(n.value)
+                try:
+                    out.append([n.value, repr(float(n.value))])
+                except Exception:  # noqa
+                    pass
+            for k in getattr(type(n), "__slots__", ()):
+                if k not in ("loc", "source"):
+                    todo.append(getattr(n, k, None))
+    return out
+
+
 def run(ctx, histories, wire_schema):
     if not ctx.model_ok or not ctx.driver.available():
         return
@@ -238,7 +264,8 @@ def run(ctx, histories, wire_schema):
                 continue
             seen.add(key)
             ws = wire_schema(schemas[i][2])
-            reqs.append({"op": "printT", "schema": ws["schema"], "indent": ind, "descriptions": o["include_descriptions"]})
+            reqs.append({"op": "printT", "schema": ws["schema"], "indent": ind, "descriptions": o["include_descriptions"],
+                         "reprs": numeral_reprs(out[1])})
             meta.append((schemas[i][1], o, out[1]))
     try:
         for src, sch in shape_cases():
@@ -246,8 +273,8 @@ def run(ctx, histories, wire_schema):
             for indent in (4, 2, "\t"):
                 o = dict(indent=indent, include_descriptions=True, include_introspection=False, include_custom_schema_directives=False)
                 ind = (" " * indent) if isinstance(indent, int) else indent
-                reqs.append({"op": "printT", "schema": ws["schema"], "indent": ind, "descriptions": True})
                 real = sch.to_string(**o)
+                reqs.append({"op": "printT", "schema": ws["schema"], "indent": ind, "descriptions": True, "reprs": numeral_reprs(real)})
                 meta.append((src, o, real))
                 ctx.stat("textT-description-shapes")
                 if ":uniform:" in src:
@@ -261,7 +288,7 @@ def run(ctx, histories, wire_schema):
     _t0 = _t.time()
     answers = ctx.driver.ask(reqs)
     ctx.extra["textT_driver_seconds"] = round(_t.time() - _t0, 1)
-    n_wf = n_desc = n_shape = n_shape_wf = 0
+    n_wf = n_desc = n_shape = n_shape_wf = n_canon = n_pre = n_num = 0
     for (src, o, real), a in zip(meta, answers):
         ctx.count()
         ctx.stat("textT")
@@ -289,5 +316,23 @@ def run(ctx, histories, wire_schema):
                 except Exception as e:  # noqa
                     ctx.fail("text-unparsable:%s:printTextWF" % type(e).__name__,
                              "printTextWF holds but the real parser rejects the real printed text", detail)
+                # `text_roundtrip_every_preimage` evaluated with Python's repr(float(.)): when the printer's `f` components are
+                # what Python computes on the printed numerals (`canon`), the document the conversion makes of the PARSED tree
+                # builds what the printer's own document builds
+                if a.get("canon"):
+                    n_canon += 1
+                    if a.get("preimage"):
+                        n_pre += 1
+                        if any(ch.isdigit() for ch in real) and numeral_reprs(real):
+                            n_num += 1
+                    else:
+                        ctx.fail("corr:printT:everyPreimage", "printTextWF and CanonDoc hold but the document converted from the parsed tree "
+                                 "(astToDoc) does not build what the printed document builds (text_roundtrip_every_preimage evaluated)",
+                                 detail, kind="correspondence")
+                else:
+                    ctx.stat("textT-printer-f-differs-from-python-repr")
+    ctx.extra["every_preimage_evaluated"] = ("%d of %d printTextWF schemas have the printer's f = repr(float(v)) on every printed default "
+                                             "(CanonDoc); astToDoc of the parsed tree builds the same schema in %d of them (%d with numerals)"
+                                             % (n_canon, n_wf, n_pre, n_num))
     ctx.extra["printTextWF_satisfied"] = ("%d of %d printed schemas (descriptions on, no custom directives); of these %d of %d in "
                                           "the description-shape corpus" % (n_wf, n_desc, n_shape_wf, n_shape))
